@@ -20,7 +20,7 @@ EXPLANATION = (
     "same mutex, requests go straight to the vectors only in single-threaded mode (R5). Not decided: anything that "
     "depends on the MPI library's behaviour; the CUDA analogue (headers absent).")
 ASSUMPTIONS = ["MPI_Testsome/MPI_Testany report only completed requests (MPI standard)", "scheduler_base::set_mpi_polling_functions installs the function that the scheduling loop calls"]
-FLOORS = {"C20.R1": 4, "C20.R2": 6, "C20.R3": 3, "C20.R4": 5, "C20.R5": 5, "C20.R6": 1}
+FLOORS = {"C20.R1": 4, "C20.R2": 6, "C20.R3": 3, "C20.R4": 5, "C20.R5": 5, "C20.R6": 1, "C20.R7": 3}
 
 D_ = "pika::mpi::experimental::detail::"
 MD = D_ + "mpi_data_"
@@ -50,6 +50,97 @@ def run(rep, tier):
 
     def is_inc_inflight(e):
         return (e.get("k") == "call" and e.get("op") == "++" and P(e.get("recv")) == inflight) or (e.get("k") == "write" and e.get("op") == "++" and P(e["lhs"]) == inflight)
+    # ---- R7: a polling pass tests every registered request
+    rep.rule("C20.R7", "K6 (evaluated on sample vector sizes): one pass of the poller hands every registered request to MPI: the MPI_Testsome windows (count, &requests_[start]) "
+             "tile [0, requests_.size()) exactly, for every polling size > 1; MPI_Testany is given the whole vector. A request that is never tested never completes for pika: its "
+             "callback does not run, the sender never signals, all_in_flight_ stays non-zero (pika::wait(), stop_polling hang)")
+    from engine.kinds import interp, eval_tree, Unknown
+    n7 = 0
+    for fn in (one("poll_multithreaded"), one("poll_singlethreaded")):
+        short = fn.qname.rsplit("::", 1)[-1]
+        for b, i, e in fn.all_events():
+            if e.get("k") == "call" and callee_short(e) == "MPI_Testany":
+                n7 += 1
+                a0, a1 = T(strip(e["args"][0])), T(strip(e["args"][1]))
+                if a0 == MD + ".requests_.size()" and a1 == MD + ".requests_.data()":
+                    rep.ok("C20.R7", fn, "%s: MPI_Testany is given the whole request vector" % short)
+                else:
+                    rep.bad("C20.R7", fn, loc_of(e), "testany-window:" + short, "%s calls MPI_Testany(%s, %s, ..): not the whole vector of registered requests - requests outside the "
+                            "window are never tested, their completion is never delivered" % (short, a0, a1))
+        ts = [(b, i, e) for b, i, e in fn.all_events() if e.get("k") == "call" and callee_short(e) == "MPI_Testsome"]
+        if not ts:
+            continue
+        if len(ts) != 1:
+            raise AnalysisBroken("%s: %d MPI_Testsome calls" % (short, len(ts)))
+        tb, ti, te = ts[0]
+        lp = loop_of(fn, tb)
+        if lp is None:
+            rep.bad("C20.R7", fn, loc_of(te), "testsome-no-loop", "%s calls MPI_Testsome once, outside a loop over the windows of the request vector" % short)
+            continue
+        # start where the number of requests to test is read: the last read of requests_.size() that dominates the loop
+        szs = [(b, i, e) for b, i, e in fn.all_events() if e.get("k") == "call" and T(e) == MD + ".requests_.size()" and b != tb
+               and precedes_on_all_paths(fn, lambda x, e=e: x is e, (tb, ti), eh=False)]
+        if not szs:
+            rep.bad("C20.R7", fn, loc_of(te), "testsome-size", "%s does not read requests_.size() before its MPI_Testsome loop" % short)
+            continue
+        start = szs[-1][0]
+        pollsz = sorted(set(T(e) for _, _, e in fn.all_events() if e.get("k") == "call" and callee_short(e) == "load" and P(e.get("recv") or {}).endswith(".max_polling_requests")))
+        done = [(b, i, e) for b, i, e in fn.all_events() if e.get("k") == "call" and callee_short(e) == "compact_vectors"]
+        if not done:
+            raise AnalysisBroken("%s: compact_vectors not found" % short)
+        bad7, nsamp = None, 0
+        for psize in (2, 8, 32, 1000):
+            for N in (0, 1, 2, 7, 8, 9, 31, 32, 33, 64, 65, 100, 200):
+                wins = []
+
+                def model(node, env_, wins=wins):
+                    if callee_short(node) == "MPI_Testsome":
+                        cnt = eval_tree(node["args"][0], env_)
+                        a1 = strip(node["args"][1])
+                        m = re.match(r"^&%s\.requests_\[(.+)\]$" % re.escape(MD), T(a1))
+                        if not m:
+                            raise Unknown("window start")
+                        # the subscript: evaluate its text as a local / sum of locals
+                        sub = m.group(1).strip("()")
+                        val = 0
+                        for term in sub.split(" + "):
+                            term = term.strip("() ")
+                            if re.match(r"^\d+$", term):
+                                val += int(term)
+                            elif term in env_:
+                                val += env_[term]
+                            else:
+                                raise Unknown(term)
+                        wins.append((val, cnt))
+                        return 0
+                    raise Unknown(T(node))
+                env = {MD + ".requests_.size()": N, "event_handled": False, "num_completed": 0, "$call": model}
+                for t in pollsz:
+                    env[t] = psize
+                res = interp(fn, env, until=lambda x: x.get("k") == "call" and callee_short(x) == "compact_vectors", start=start, max_visits=12, unknown_both=True, max_paths=8)
+                nsamp += 1
+                ends = set(r[0] for r in res)
+                if ends & {"loop", "limit"} and len(wins) > 3:
+                    bad7 = bad7 or "with %d registered requests and polling size %d the window loop does not end (windows %s ...)" % (N, psize, wins[:4])
+                    continue
+                if ends != {"stop"}:
+                    raise AnalysisBroken("%s: one polling pass could not be evaluated for %d requests (ends %s)" % (short, N, sorted(ends)))
+                pos, okw = 0, True
+                for st_, cnt in wins:
+                    if st_ != pos or cnt <= 0:
+                        okw = False
+                    pos += cnt
+                if not okw or pos != N:
+                    bad7 = bad7 or "with %d registered requests and polling size %d the windows are %s: requests [%d, %d) are not tested" % (N, psize, wins[:6], min(pos, N), N)
+        n7 += 1
+        if bad7:
+            rep.bad("C20.R7", fn, loc_of(te), "testsome-window:" + short, "%s: %s. A request behind long-pending older ones is never handed to MPI_Testsome: MPI completes the transfer but "
+                    "the callback never runs and the sender never signals" % (short, bad7))
+        else:
+            rep.ok("C20.R7", fn, "%s: the MPI_Testsome windows tile [0, requests_.size()) exactly (%d evaluations)" % (short, nsamp), sites=nsamp)
+    if n7 < 3:
+        raise AnalysisBroken("C20.R7: only %d polling call sites examined" % n7)
+
     # ---- R1 (add_request_callback is read with its private helper add_to_request_callback_queue in place)
     GF = facts(rep, tu, [r"^pika::mpi::experimental::"], extra=core.MPI_FLAGS, flatten=[r"^pika::mpi::experimental::(detail::)?add_to_request_callback_queue$"])
     aq = [f for f in GF.find(r"^pika::mpi::experimental::(detail::)?add_request_callback$") if f.parent == -1 and f.file.endswith("mpi_polling.cpp")]
